@@ -25,6 +25,9 @@ CHECKS.update({
  "C30": ("exploration", "property-based testing (rapidcheck) over generated transactions x generated thread schedules on the real lock classes under a cooperative scheduler, plus bounded-exhaustive schedule enumeration (stateless DFS, preemption-bounded) of small configurations",
          "History invariants (single writer, validation soundness, abort transparency, bounded progress, no lost update) hold on every explored interleaving: hundreds of thousands of random schedules and every schedule of 2x1 (unbounded), 2x2 and 3x1 (preemption-bounded) client configurations.",
          "Interleavings are sequentially consistent at hook granularity (no weak-memory effects); liveness only in bounded form (all-spinning state = violation, budget overrun = inconclusive).", "4/C30"),
+ "C29": ("exploration", "property-based testing (rapidcheck) over generated operation lists x generated thread schedules on the real DisjointSet under a cooperative scheduler with a step-wise forest invariant, plus bounded-exhaustive schedule enumeration for all pairs of single operations",
+         "Final partition, per-call linearizability windows of sameSet/findNode, step-wise acyclicity of parent links and termination hold on every explored interleaving (random + every schedule of all 2-thread single-operation pairs over 3-4 nodes up to a preemption bound).",
+         "Sequentially consistent interleavings at hook granularity; the linearizability check uses the monotonicity of the partition (windows), not a full linearization search.", "4/C29"),
 })
 
 def entry(pid):
